@@ -32,8 +32,11 @@ BODIES = {
     9: "# head\na: 9\nb: 2\n",       # only at non-first positions of a file (else the comment is leading content)
     10: "a: null\nb: false\n",
     11: "a: 3\nb: boom\n",
+    12: "n: [1, 2]\na: 1\n",
+    13: "n: [10]\na: 2\n",
+    14: "n: [5, 5]\nb: 2\n",
 }
-FIRST_OK = [1, 1, 2, 2, 3, 3, 5, 5, 8, 8, 10, 11, 4, 6, 7]
+FIRST_OK = [1, 1, 2, 2, 3, 3, 5, 5, 8, 8, 10, 11, 4, 6, 7, 12, 12, 13, 13, 14]
 BAD_TAIL = "{ bad\n"
 
 # leading content: S = document start marker line, other strings = comment / blank lines
@@ -52,7 +55,17 @@ SEL = {
     ".a | document_index": (1, 0, "di"), ".b | file_index": (1, 0, "fi"), ".a | filename": (1, 0, "fn"),
     "select(.b == \"boom\") | error(\"boom\")": (1, 1, "b"),
     ".a | select(. == 3) | error(\"three\")": (1, 0, "b"),
+    # in-place updates of a literal / of the reduce accumulator inside the per-document expression: the literal
+    # lives in the parsed tree that is shared by all documents, so each evaluation must work on a copy
+    ".sum = (.n[] as $i ireduce (0; . += $i))": (1, 1, "b"),
+    ".n[] as $i ireduce (0; . += $i)": (0, 0, "b"),
+    ".a as $v | (0 | . += $v)": (0, 0, "b"),
+    ".k = (1 | . *= 2)": (1, 1, "b"),
+    "with(.k; . = (3 | . -= 1))": (1, 1, "b"),
+    ".k = (.a as $v | (100 | . -= $v))": (1, 1, "b"),
 }
+INPLACE = [".sum = (.n[] as $i ireduce (0; . += $i))", ".n[] as $i ireduce (0; . += $i)", ".a as $v | (0 | . += $v)",
+           ".k = (1 | . *= 2)", "with(.k; . = (3 | . -= 1))", ".k = (.a as $v | (100 | . -= $v))"]
 # unions: selectors are measured one by one, so a union must not contain a selector that creates a key
 # (`.c` on a document without c) next to one that shows the whole document
 EXPRS = [[s] for s in SEL] + [
@@ -60,12 +73,13 @@ EXPRS = [[s] for s in SEL] + [
     [".a | document_index", ".b | file_index"], ["document_index", "file_index", "filename"],
     [".a", ".a | select(. == 3) | error(\"three\")"], ["select(.a == 1)", "tag"], [".a | select(. != null)", ".b"],
     [".a", ".a"], ["\"lit\"", ".a"],
-]
-COLLECT = ("[.a]", "{\"x\": .a}", ".a + 1", ". * {\"z\": 1}")   # not document-local in eval-all (collect; cross product of binary operators)
+    [".n[] as $i ireduce (0; . += $i)", ".a as $v | (0 | . += $v)"], [".a", ".n[] as $i ireduce (0; . += $i)"],
+] + [[s] for s in INPLACE]      # (a second time: weight)
+COLLECT = ("[.a]", "{\"x\": .a}", ".a + 1", ". * {\"z\": 1}") + tuple(INPLACE)   # not document-local in eval-all (collect; cross product of binary operators)
 IDENT = ["."]
 
 
-HAS_A = {1, 2, 5, 8, 9, 10, 11}
+HAS_A = {1, 2, 5, 8, 9, 10, 11, 12, 13}
 
 
 def sel_att(sel, b):
@@ -454,6 +468,9 @@ def run(chk):
             {"files": [F([S], [1, 9]), F(["# c1\n", S], [5, 9])], "sels": ["."], "mode": "e", "flags": {"N": True, "json": False, "nul": False}},
             {"files": [F([S], [1, 9]), F(["# c1\n"], [5, 9])], "sels": [".", ".a"], "mode": "e", "flags": {"N": False, "json": False, "nul": True}},
             {"files": [F([], [1]), F(["# c1\n"], [5])], "sels": ["."], "mode": "ea", "flags": dict(NF)},
+            {"files": [F([], [12, 13, 14])], "sels": [".sum = (.n[] as $i ireduce (0; . += $i))"], "mode": "e", "flags": dict(NF)},
+            {"files": [F([], [12]), F([], [13]), F([S], [14])], "sels": [".n[] as $i ireduce (0; . += $i)"], "mode": "e", "flags": dict(NF)},
+            {"files": [F([], [12, 13]), F([], [1])], "sels": [".k = (1 | . *= 2)"], "mode": "e", "flags": {"N": False, "json": True, "nul": False}},
         ]
         cases += fixed
         while len(cases) < ncases:
